@@ -8,6 +8,11 @@ package datatypes
 // allocated by the storing call)
 //@ immutable WiredDatatype.TransactionDatatype, WiredDatatype.checkPoint, WiredDatatype.wire, TransactionDatatype.BaseDatatype, TransactionDatatype.mutex, BaseDatatype.Datatype, BaseDatatype.ctx, SnapshotDatatype.BaseDatatype
 
+// ghost: how often (and with how many operations) the remote operations of a reply were handed
+// to the datatype
+//@ ghost field G.receiveCalls mathint
+//@ ghost field G.lastReceived mathint
+
 //@ pred wiredWF(w *WiredDatatype) = w.TransactionDatatype != nil && w.TransactionDatatype.BaseDatatype != nil && w.checkPoint != nil
 
 // The buffer of operations awaiting push: non-nil operations with non-nil ids numbered consecutively.
@@ -32,7 +37,7 @@ package datatypes
 
 //@ func (*WiredDatatype).syncCheckPoint
 //@   mode wrap
-//@   props C05 C07
+//@   props C05 C07 C18
 //@   requires wiredWF(its) && newCheckPoint != nil && its.checkPoint != newCheckPoint
 //@   ensures[max-sseq]  its.checkPoint.Sseq == (old(its.checkPoint.Sseq) < newCheckPoint.Sseq ? newCheckPoint.Sseq : old(its.checkPoint.Sseq))
 //@   ensures[max-cseq]  its.checkPoint.Cseq == (old(its.checkPoint.Cseq) < newCheckPoint.Cseq ? newCheckPoint.Cseq : old(its.checkPoint.Cseq))
@@ -46,7 +51,7 @@ package datatypes
 // ---------------------------------------------------------------------------------------
 
 // every operation of a reply is well-formed: declared type, decodable body, identifier present
-//@ pred opsWF(ops []*model.Operation) = forall i int :: 0 <= i && i < len(ops) ==> ops[i] != nil && ops[i].ID != nil && operations.knownOpType(ops[i].OpType) && operations.decodable(ops[i])
+//@ pred opsWF(ops []*model.Operation) = forall o in ops :: o != nil && o.ID != nil && operations.knownOpType(o.OpType) && operations.decodable(o)
 
 //@ func (*WiredDatatype).NeedPull
 //@   mode wrap
@@ -64,7 +69,7 @@ package datatypes
 
 //@ func (*WiredDatatype).ResetWired
 //@   mode wrap
-//@   props C13
+//@   props C13 C15 C05
 //@   requires wiredWF(its) && its.opID != nil
 //@   ensures len(its.localBuffer) == 0 && its.opID.Seq == 0
 //@   ensures its.opID == old(its.opID) && its.opID.Lamport == old(its.opID.Lamport) && its.checkPoint == old(its.checkPoint)
@@ -75,7 +80,7 @@ package datatypes
 // excludeDuplicatedOperations drops `len(ops) - pulled` operations from the FRONT of the reply
 // (what the code does; the property-level statement is the C07 lemma).
 //@ func (*WiredDatatype).excludeDuplicatedOperations
-//@   mode bv
+//@   mode wrap
 //@   props C07 C05
 //@   requires wiredWF(its) && ppp != nil && ppp.CheckPoint != nil
 //@   replay-input cp_sseq = its.checkPoint.Sseq
@@ -87,7 +92,9 @@ package datatypes
 //@   ensures[skip-from-front] len(old(ppp.Operations)) > its.calculatePullingOperations(ppp.CheckPoint) && its.calculatePullingOperations(ppp.CheckPoint) >= 0 ==> len(ppp.Operations) == its.calculatePullingOperations(ppp.CheckPoint)
 //@   ensures[stale-drops-all] its.calculatePullingOperations(ppp.CheckPoint) < 0 ==> len(ppp.Operations) == 0
 //@   ensures[keeps-all]       len(old(ppp.Operations)) <= its.calculatePullingOperations(ppp.CheckPoint) ==> len(ppp.Operations) == len(old(ppp.Operations))
+//@   ensures[is-a-suffix]     suffixOf(ppp.Operations, old(ppp.Operations))
 //@   ensures[checkpoint-untouched] its.checkPoint.Sseq == old(its.checkPoint.Sseq) && its.checkPoint.Cseq == old(its.checkPoint.Cseq)
+//@   ensures[only-this-pack]  forall q *model.PushPullPack :: q != ppp ==> len(q.Operations) == old(len(q.Operations))
 //@   modifies model.PushPullPack.Operations
 
 //@ func (*BaseDatatype).GetMeta
@@ -111,7 +118,7 @@ package datatypes
 //  - any other reply changes nothing.
 //@ func (*WiredDatatype).checkOptionAndError
 //@   mode wrap
-//@   props C08 C13 C16
+//@   props C05 C08 C13 C16
 //@   requires wiredWF(its) && its.opID != nil && its.BaseDatatype.Datatype != nil && its.BaseDatatype.ctx != nil
 //@   requires ppp != nil && ppp.CheckPoint != nil && ppp.CheckPoint != its.checkPoint && opsWF(ppp.Operations)
 //@   requires[server-reply-shape] (ppp.GetPushPullPackOption().HasErrorBit() || ppp.GetPushPullPackOption().HasSubscribeBit()) ==> len(ppp.Operations) >= 1
@@ -129,7 +136,44 @@ package datatypes
 //@ func (*WiredDatatype).ReceiveRemoteModelOperations
 //@   mode wrap
 //@   props C09 C16
-//@   requires wiredWF(its) && its.BaseDatatype.Datatype != nil && opsWF(ops)
+//@   requires[wf] wiredWF(its) && its.BaseDatatype.Datatype != nil
+//@   requires[ops-wf] opsWF(ops)
+//@   ghost-exit G.receiveCalls := old(G.receiveCalls) + 1
+//@   ghost-exit G.lastReceived := len(ops)
+//@   ensures[counted] G.receiveCalls == old(G.receiveCalls) + 1 && G.lastReceived == len(ops)
+//@   loop 0 invariant[ghost-untouched] G.receiveCalls == old(G.receiveCalls)
 //@   loop 0 invariant[index-in-range] 0 <= i && i <= len(ops)
 //@   loop 0 decreases len(ops) - i
+//@   modifies *
+
+// updateStateOfDatatype: a reply to a create/subscribe request moves the datatype to SUBSCRIBED,
+// adopts the server's DUID and reports the transition to the wire exactly once; a datatype that
+// is already subscribed never reports again (C13).
+//@ pred dueTo(s model.StateOfDatatype) = s == model.StateOfDatatype_DUE_TO_CREATE || s == model.StateOfDatatype_DUE_TO_SUBSCRIBE || s == model.StateOfDatatype_DUE_TO_SUBSCRIBE_CREATE
+//@ func (*WiredDatatype).updateStateOfDatatype
+//@   mode wrap
+//@   props C13 C05
+//@   requires wiredWF(its) && its.opID != nil && its.wire != nil && ppp != nil
+//@   ensures[returns-transition]   result0 == old(its.state) && result1 == its.state
+//@   ensures[becomes-subscribed]   old(dueTo(its.state)) ==> its.state == model.StateOfDatatype_SUBSCRIBED && its.id == ppp.DUID
+//@   ensures[reported-exactly-once] old(dueTo(its.state)) ==> G.stateChanges == old(G.stateChanges) + 1 && G.lastStateTold == model.StateOfDatatype_SUBSCRIBED
+//@   ensures[no-other-report]      !old(dueTo(its.state)) ==> G.stateChanges == old(G.stateChanges) && its.state == old(its.state) && its.id == old(its.id)
+//@   ensures[checkpoint-untouched] its.checkPoint.Sseq == old(its.checkPoint.Sseq) && its.checkPoint.Cseq == old(its.checkPoint.Cseq)
+//@   ensures[late-subscriber-restarts-numbering] old(its.state) == model.StateOfDatatype_DUE_TO_SUBSCRIBE_CREATE && ppp.GetPushPullPackOption().HasSubscribeBit() ==> len(its.localBuffer) == 0 && its.opID.Seq == 0 && its.opID.Lamport == 1 && its.opID.CUID == old(its.opID.CUID)
+//@   ensures[otherwise-buffer-kept] !(old(its.state) == model.StateOfDatatype_DUE_TO_SUBSCRIBE_CREATE && ppp.GetPushPullPackOption().HasSubscribeBit()) ==> len(its.localBuffer) == old(len(its.localBuffer)) && its.opID == old(its.opID)
+//@   modifies BaseDatatype.state, BaseDatatype.id, BaseDatatype.opID, WiredDatatype.localBuffer, G:stateChanges, G:lastStateTold
+
+// ApplyPushPullPack: a refused sync (error reply) changes nothing and is reported; otherwise the
+// reply's operations are handed to the datatype exactly once, whatever the state handler says,
+// and the handlers are told exactly once (C13, C16).
+//@ func (*WiredDatatype).ApplyPushPullPack
+//@   mode wrap
+//@   props C13 C16 C05 C07
+//@   requires wiredWF(its) && its.opID != nil && its.wire != nil && its.BaseDatatype.Datatype != nil && its.BaseDatatype.ctx != nil
+//@   requires ppp != nil && ppp.CheckPoint != nil && ppp.CheckPoint != its.checkPoint && opsWF(ppp.Operations)
+//@   requires[server-reply-shape] (ppp.GetPushPullPackOption().HasErrorBit() || ppp.GetPushPullPackOption().HasSubscribeBit()) ==> len(ppp.Operations) >= 1
+//@   requires[error-op-first] ppp.GetPushPullPackOption().HasErrorBit() ==> ppp.Operations[0].OpType == model.TypeOfOperation_ERROR
+//@   ensures[handlers-told-once]      spawned("datatypes.(*WiredDatatype).callHandlers") == old(spawned("datatypes.(*WiredDatatype).callHandlers")) + 1
+//@   ensures[error-reply-changes-nothing] old(ppp.GetPushPullPackOption().HasErrorBit()) ==> its.checkPoint.Sseq == old(its.checkPoint.Sseq) && its.checkPoint.Cseq == old(its.checkPoint.Cseq) && len(its.localBuffer) == old(len(its.localBuffer)) && its.opID.Seq == old(its.opID.Seq) && G.receiveCalls == old(G.receiveCalls) && its.state == old(its.state)
+//@   ensures[plain-reply-applied-once] !old(ppp.GetPushPullPackOption().HasErrorBit()) && !old(ppp.GetPushPullPackOption().HasSubscribeBit()) ==> G.receiveCalls == old(G.receiveCalls) + 1
 //@   modifies *
